@@ -159,7 +159,7 @@ theorem C02_addr_component_lengths (pfx hex ext : List Nat) (hl : hex.length = 2
 /-! non-vacuity -/
 
 example : SoundRun {} St.init [.write ⟨0, 1⟩ [104, 10], .track [⟨0, 1⟩] {}, .write ⟨0, 1⟩ [105],
-    .track [⟨0, 1⟩] { method := some .symlink }, .recheck [⟨0, 1⟩] (some .copy) true, .remove [⟨0, 1⟩] true false] := by
+    .track [⟨0, 1⟩] { method := some .symlink }, .recheck [⟨0, 1⟩] (some .copy) true, .remove [⟨0, 1⟩] .all false] := by
   simp [SoundRun, SoundStep]
 
 example : Cmd.gentle (.track [⟨0, 1⟩] {}) = true ∧ Cmd.gentle (.recheck [⟨0, 1⟩] none true) = true := by
